@@ -61,7 +61,25 @@ func randDoc(r *core.Rand) *Doc {
 		return nil
 	}
 	words := []string{"Doc", "for x.", "A 'quoted' thing", "returns \"y\"", "1 < 2", "# not a comment", "// neither", "ünï", "a*b", "/ slash", "x", "-", ".", "a  b", "*starred*"}
-	switch r.Intn(4) {
+	switch r.Intn(5) {
+	case 4:
+		// the text starts on the line of the opening marker and continues on
+		// star-decorated lines: every line has one space before its text once
+		// the markers are gone, so nothing of the text's own indentation is lost
+		n := r.Range(1, 3)
+		first := words[r.Intn(len(words))]
+		if strings.HasPrefix(first, "*") {
+			first = "w" + first
+		}
+		lines := []string{first}
+		raw := "/** " + first + "\n"
+		for i := 0; i < n; i++ {
+			l := words[r.Intn(len(words))]
+			lines = append(lines, l)
+			raw += " * " + l + "\n"
+		}
+		raw += " */"
+		return &Doc{Raw: raw, Want: strings.Join(lines, "\n")}
 	case 0:
 		t := words[r.Intn(len(words))]
 		sp1, sp2 := strings.Repeat(" ", r.Intn(3)), strings.Repeat(" ", r.Intn(3)+1)
